@@ -90,6 +90,9 @@ type CallSpec struct {
 	// Cause: the context is created with context.WithCancelCause / WithTimeoutCause and ends with
 	// a cause of the caller's own (ctx.Err() is still Canceled / DeadlineExceeded).
 	Cause bool `json:"cause,omitempty"`
+	// WaitWatch: the caller of a correctable call waits in Watch(level) alone, for a level that is
+	// never reached, instead of Done: completion (of any kind) releases all watchers
+	WaitWatch bool `json:"wait_watch,omitempty"`
 }
 
 // ErrCause is the cancellation cause of contexts created with CallSpec.Cause.
@@ -769,8 +772,16 @@ func (call *Call) watchCorr(co corrGetter, raw *gorums.Correctable, get func() (
 	}
 	call.mu.Unlock()
 	close(call.issued)
+	var watch <-chan struct{}
+	if call.Spec.WaitWatch {
+		watch = raw.Watch(1 << 40)
+	}
 	go func() {
-		<-co.Done()
+		if watch != nil {
+			<-watch
+		} else {
+			<-co.Done()
+		}
 		v, _, err, p := call.typed()
 		if p != "" {
 			call.finish("panic", nil, fmt.Errorf("typed Get panicked: %s", p))
